@@ -373,7 +373,7 @@ impl Property for C18 {
         ]
     }
     fn cases(&self, tier: Tier) -> usize {
-        tier.pick(2500, 30_000)
+        tier.pick(2500, 60_000)
     }
     fn strategy(&self, tier: Tier) -> BoxedStrategy<Case> {
         let max_calls = tier.pick(8usize, 12usize);
